@@ -340,13 +340,19 @@ def dispatch_table(func, key_text):
     return out
 
 
-def callable_parts(klass, expr):
+def callable_parts(klass, expr, func=None):
     """(first parameter name, [nodes of the body]) of a callable handed over as a value: a lambda, or a method / static function of
     ``klass`` referenced as ``self.name`` / ``Class.name`` whose first parameter (after self) receives the argument; None otherwise."""
     if isinstance(expr, ast.Lambda):
         if not expr.args.args:
             return None
         return expr.args.args[0].arg, [expr.body]
+    if isinstance(expr, ast.Name) and func is not None:
+        # a function defined in the enclosing function (one definition)
+        ds = [s_ for s_ in ast.walk(func.node) if isinstance(s_, ast.FunctionDef) and s_.name == expr.id and s_ is not func.node]
+        if len(ds) == 1 and ds[0].args.args:
+            return ds[0].args.args[0].arg, list(ds[0].body)
+        return None
     if isinstance(expr, ast.Attribute) and isinstance(expr.value, ast.Name) and klass is not None and klass.has(expr.attr):
         f = klass.method(expr.attr)
         static = any(isinstance(d, ast.Name) and d.id == 'staticmethod' for d in f.node.decorator_list)
@@ -410,3 +416,23 @@ def table_lookup(module, expr):
         t = symbolic_table(module, expr.func.value)
         return (t, expr.args[0], expr.args[1] if len(expr.args) == 2 else ast.Constant(value=None)) if t is not None else None
     return None
+
+
+class _StripCasts(ast.NodeTransformer):
+    def visit_Call(self, n):
+        self.generic_visit(n)
+        if isinstance(n.func, ast.Name) and n.func.id in ('int', 'float', 'bool') and len(n.args) == 1 and not n.keywords and \
+                isinstance(n.args[0], (ast.Name, ast.Subscript, ast.Attribute)):
+            return n.args[0]
+        return n
+
+
+def strip_casts(node):
+    """copy of ``node`` without int(x) / float(x) / bool(x) around a plain name, item or attribute: for rules about *which* value is
+    stored or sent, a conversion of a value to the type it already has (bytes of a payload, fields of struct.unpack) says nothing"""
+    import copy
+    return _StripCasts().visit(copy.deepcopy(node))
+
+
+def norm_nc(node):
+    return norm(strip_casts(node))
